@@ -221,6 +221,7 @@ type c19Node struct {
 	Kind string     `json:"kind"`
 	Kids []*c19Node `json:"kids,omitempty"` // aligned with the 'x' positions that hold containers
 	Cond []bool     `json:"cond,omitempty"` // kid wrapped in a Condition?
+	Opts string     `json:"opts,omitempty"`
 	s    stackage.Stack
 	orig []any
 }
@@ -237,6 +238,14 @@ func c19GenNode(r *core.Rng, depth int, next func() any) *c19Node {
 	}
 	n := &c19Node{Pat: string(b), Kind: Kinds[r.Intn(5)]}
 	n.s = NewStack(n.Kind, 0)
+	if r.Chance(1, 3) {
+		n.s.SetForwardIndices(true)
+		n.Opts += "fwd "
+	}
+	if r.Chance(1, 3) {
+		n.s.SetNegativeIndices(true)
+		n.Opts += "neg"
+	}
 	for i := 0; i < L; i++ {
 		if b[i] == '.' {
 			n.s.Push(nil)
